@@ -67,9 +67,30 @@ fn now_ms() -> u64 {
     SystemTime::now().duration_since(UNIX_EPOCH).unwrap().as_millis() as u64
 }
 
+thread_local! {
+    /// scratch directory of the current `disk` case: stripped from reported file names
+    static DISK_PREFIX: std::cell::RefCell<Option<String>> = std::cell::RefCell::new(None);
+}
+static DISK_COUNTER: std::sync::atomic::AtomicUsize = std::sync::atomic::AtomicUsize::new(0);
+
+/// message texts may quote paths: remove the scratch prefix of a `disk` case everywhere
+fn clean(s: &str) -> String {
+    DISK_PREFIX.with(|p| match &*p.borrow() {
+        Some(pre) => s.replace(pre.as_str(), ""),
+        None => s.to_string(),
+    })
+}
+
+fn strip_disk_prefix(s: String) -> String {
+    DISK_PREFIX.with(|p| match &*p.borrow() {
+        Some(pre) if s.starts_with(pre.as_str()) => s[pre.len()..].to_string(),
+        _ => s,
+    })
+}
+
 fn file_name(f: &FileOrLib) -> String {
     match f {
-        FileOrLib::File(p) => p.display().to_string(),
+        FileOrLib::File(p) => strip_disk_prefix(p.display().to_string()),
         FileOrLib::Lib(l) => format!("lib:{}", l),
     }
 }
@@ -108,7 +129,7 @@ fn type_error_kind(k: &TypeError) -> &'static str {
 fn error_line(e: &Error) -> String {
     match e {
         Error::NoFileGiven => "NoFile|-|0|0|0|-".to_string(),
-        Error::FileNotFound(p) => format!("FileNotFound|{}|0|0|0|-", p.display()),
+        Error::FileNotFound(p) => format!("FileNotFound|{}|0|0|0|-", strip_disk_prefix(p.display().to_string())),
         Error::IOError(_) => "IO|-|0|0|0|-".to_string(),
         Error::GitConflictError { file, span } => format!(
             "GitConflict|{}|{}|{}|{}|-",
@@ -123,7 +144,7 @@ fn error_line(e: &Error) -> String {
             span.line_start,
             span.col_start,
             span.col_end,
-            hex(message.as_bytes())
+            hex(clean(message).as_bytes())
         ),
         Error::CompileError { file, span, message, .. } => format!(
             "Compile|{}|{}|{}|{}|{}",
@@ -131,7 +152,7 @@ fn error_line(e: &Error) -> String {
             span.line_start,
             span.col_start,
             span.col_end,
-            hex(message.clone().unwrap_or_default().as_bytes())
+            hex(clean(&message.clone().unwrap_or_default()).as_bytes())
         ),
         Error::TypeError { kind, file, span, message, .. } => format!(
             "Type:{}|{}|{}|{}|{}|{}",
@@ -140,7 +161,7 @@ fn error_line(e: &Error) -> String {
             span.line_start,
             span.col_start,
             span.col_end,
-            hex(message.clone().unwrap_or_default().as_bytes())
+            hex(clean(&message.clone().unwrap_or_default()).as_bytes())
         ),
         Error::RuntimeError => "Runtime|-|0|0|0|-".to_string(),
         Error::LuaError(s) => format!("Lua|-|0|0|0|{}", hex(s.as_bytes())),
@@ -183,6 +204,9 @@ struct CompileCase {
     std: bool,
     require: Option<String>,
     render: bool,
+    /// flag `disk`: the files are also written below a scratch directory ($VERIF_SCRATCH or the system
+    /// temp dir) and compiled under those paths, so that rendering an error can show the source lines
+    disk: Option<PathBuf>,
     main: String,
     files: HashMap<PathBuf, String>,
 }
@@ -194,8 +218,11 @@ fn parse_compile_case(line: &str) -> CompileCase {
     let mut std = false;
     let mut require = None;
     let mut render = false;
+    let mut disk = false;
     for f in flags.split(',') {
-        if f == "std" {
+        if f == "disk" {
+            disk = true;
+        } else if f == "std" {
             std = true;
         } else if f == "nostd" {
             std = false;
@@ -213,7 +240,34 @@ fn parse_compile_case(line: &str) -> CompileCase {
         let eq = f.find('=').expect("file entry needs =");
         files.insert(PathBuf::from(&f[..eq]), unhex_str(&f[eq + 1..]));
     }
-    CompileCase { std, require, render, main, files }
+    if disk {
+        let base = std::env::var("VERIF_SCRATCH").map(PathBuf::from).unwrap_or_else(|_| std::env::temp_dir());
+        let n = DISK_COUNTER.fetch_add(1, std::sync::atomic::Ordering::SeqCst);
+        let dir = base.join(format!("hd-{}-{}", std::process::id(), n));
+        let pre = dir.display().to_string();
+        let mut moved = HashMap::new();
+        for (p, src) in files.into_iter() {
+            let q = PathBuf::from(format!("{}{}", pre, p.display()));
+            if let Some(parent) = q.parent() {
+                let _ = std::fs::create_dir_all(parent);
+            }
+            let _ = std::fs::write(&q, src.as_bytes());
+            moved.insert(q, src);
+        }
+        let main = format!("{}{}", pre, main);
+        DISK_PREFIX.with(|p| *p.borrow_mut() = Some(pre));
+        return CompileCase { std, require, render, disk: Some(dir), main, files: moved };
+    }
+    DISK_PREFIX.with(|p| *p.borrow_mut() = None);
+    CompileCase { std, require, render, disk: None, main, files }
+}
+
+impl Drop for CompileCase {
+    fn drop(&mut self) {
+        if let Some(d) = &self.disk {
+            let _ = std::fs::remove_dir_all(d);
+        }
+    }
 }
 
 fn compile_once(c: &CompileCase) -> Result<Vec<u8>, Vec<Error>> {
@@ -272,7 +326,14 @@ fn compile_line(c: &CompileCase) -> String {
                 if c.render {
                     let rr = std::panic::catch_unwind(std::panic::AssertUnwindSafe(|| format!("{}", e)));
                     match rr {
-                        Ok(s) => out.push_str(&format!("|R{}", s.len())),
+                        Ok(s) => {
+                            // the scratch prefix of a `disk` case differs between runs: not part of the result
+                            let s = DISK_PREFIX.with(|p| match &*p.borrow() {
+                                Some(pre) => s.replace(pre.as_str(), ""),
+                                None => s,
+                            });
+                            out.push_str(&format!("|R{}", s.len()))
+                        }
                         Err(p) => out.push_str(&format!("|RENDERPANIC:{}", hex(panic_message(p).as_bytes()))),
                     }
                 }
